@@ -31,6 +31,8 @@ import (
 	"fmt"
 	"io"
 	"math"
+	"os"
+	"os/exec"
 	"reflect"
 	"sort"
 	"strconv"
@@ -45,6 +47,11 @@ import (
 func init() {
 	props["C02"] = genC02
 	replayers["C02"] = replayC02
+	// c02.odd runs its variants in a child process of this binary: a stack overflow cannot be recovered
+	if v := os.Getenv("C02_ODD_VARIANT"); v != "" {
+		fmt.Println(c02OddRun(v))
+		os.Exit(0)
+	}
 }
 
 var (
@@ -623,6 +630,261 @@ func c02RTop(c *Ctx, op, format, how string, name []byte, tdesc, vdesc string) {
 	c.Emit(op, []string{format, how, hx(name), tdesc, vdesc}, obs)
 }
 
+// c02Hist: a HISTORY of encodings. `steps` are (type, value) pairs encoded one after the other through the same
+// API; every result is HELD (the very slice the API handed out, not a copy) and looked at only after the last call:
+// each must still be the bytes it was right after its own call (a copy is taken then) and must decode to its own
+// value. `@j` in a value text stands for a carrier (RawMessage: Type/Data sliced out of the held result j, so it
+// aliases it; dynbt.Value: decoded from it) — encoding such a value reads bytes an earlier call returned.
+//
+//	api: marshal   nbt.Marshal(v)
+//	     enc       a new Encoder on a new caller-owned bytes.Buffer per step, result = buf.Bytes()
+//	     encshared one Encoder on one caller-owned bytes.Buffer for all steps, results = the consecutive segments
+//
+// observation per step: enc=ok:<bytes right after the call> chg=<argument changed by its own call> held=<1: the
+// held slice is unchanged at the end> arg=<1: the argument is unchanged at the end> dec=…(decoding the HELD slice)
+func c02Hist(c *Ctx, api, how string, steps [][2]string) {
+	n := len(steps)
+	held := make([][]byte, n)
+	snap := make([][]byte, n)
+	encOK := make([]bool, n)
+	chg := make([]int, n)
+	vals := make([]reflect.Value, n)
+	types := make([]reflect.Type, n)
+	shown := make([]string, n)
+	var shared bytes.Buffer
+	sharedEnc := nbt.NewEncoder(&shared)
+	cur := 0
+	st := guardT(30*time.Second, func() {
+		for i, sp := range steps {
+			cur = i
+			t, _ := c02ParseType(sp[0])
+			types[i] = t
+			vd := sp[1]
+			for j := 0; j < i; j++ {
+				ref := "@" + strconv.Itoa(j)
+				if strings.Contains(vd, ref) {
+					txt := "00:"
+					if encOK[j] && len(held[j]) >= 3 {
+						txt = hx(held[j][:1]) + ":" + hx(held[j][3:])
+					}
+					vd = strings.ReplaceAll(vd, ref, txt)
+				}
+			}
+			v, rest := c02ParseValue(t, vd)
+			if rest != "" {
+				panic("c02: trailing text in value: " + rest)
+			}
+			// RawMessages equal to the payload of a held result are re-pointed INTO that result
+			for j := 0; j < i; j++ {
+				if encOK[j] && len(held[j]) > 3 && strings.Contains(sp[1], "@"+strconv.Itoa(j)) {
+					c02Alias(v, held[j][3:])
+				}
+			}
+			vals[i] = v
+			before := c02ShowStr(v)
+			shown[i] = before
+			var arg any
+			if how == "ptr" {
+				arg = v.Addr().Interface()
+			} else {
+				arg = v.Interface()
+			}
+			var out []byte
+			var err error
+			switch api {
+			case "marshal":
+				out, err = nbt.Marshal(arg)
+			case "enc":
+				var buf bytes.Buffer
+				err = nbt.NewEncoder(&buf).Encode(arg, "")
+				out = buf.Bytes()
+			default:
+				off := shared.Len()
+				err = sharedEnc.Encode(arg, "")
+				out = shared.Bytes()[off:shared.Len():shared.Len()]
+			}
+			if err == nil {
+				encOK[i] = true
+				held[i] = out
+				snap[i] = append([]byte(nil), out...)
+			}
+			if c02ShowStr(v) != before {
+				chg[i] = 1
+			}
+		}
+	})
+	var sb strings.Builder
+	for i := range steps {
+		if i > 0 {
+			sb.WriteString(" ; ")
+		}
+		if st != "" && i == cur {
+			sb.WriteString("enc=" + st) // panic / hang in this step: the history ends here
+			break
+		}
+		if !encOK[i] {
+			fmt.Fprintf(&sb, "enc=err chg=%d", chg[i])
+			continue
+		}
+		heldSame, argSame := 0, 0
+		if bytes.Equal(held[i], snap[i]) {
+			heldSame = 1
+		}
+		if c02ShowStr(vals[i]) == shown[i] {
+			argSame = 1
+		}
+		fmt.Fprintf(&sb, "enc=ok:%s chg=%d held=%d arg=%d", hx(snap[i]), chg[i], heldSame, argSame)
+		br := bytes.NewReader(held[i])
+		dst := reflect.New(types[i])
+		var dobs string
+		dst2 := guardT(20*time.Second, func() {
+			got, err := nbt.NewDecoder(br).Decode(dst.Interface())
+			if err != nil {
+				dobs = "dec=err"
+			} else {
+				dobs = fmt.Sprintf("dec=ok:%s name=%s left=%d", c02ShowStr(dst.Elem()), hx([]byte(got)), br.Len())
+			}
+		})
+		if dst2 != "" {
+			dobs = "dec=" + dst2
+		}
+		sb.WriteString(" " + dobs)
+	}
+	args := []string{api, how, strconv.Itoa(n)}
+	for _, sp := range steps {
+		args = append(args, sp[0], sp[1])
+	}
+	c.Emit("c02.hist", args, sb.String())
+}
+
+// c02Alias re-points every nbt.RawMessage inside v whose Data equals data at data itself (no copy).
+func c02Alias(v reflect.Value, data []byte) {
+	switch v.Kind() {
+	case reflect.Struct:
+		if v.Type() == reflect.TypeOf(nbt.RawMessage{}) {
+			if v.CanSet() {
+				r := v.Addr().Interface().(*nbt.RawMessage)
+				if len(r.Data) > 0 && bytes.Equal(r.Data, data) {
+					r.Data = data
+				}
+			}
+			return
+		}
+		for i := 0; i < v.NumField(); i++ {
+			if v.Type().Field(i).IsExported() {
+				c02Alias(v.Field(i), data)
+			}
+		}
+	case reflect.Slice, reflect.Array:
+		for i := 0; i < v.Len(); i++ {
+			c02Alias(v.Index(i), data)
+		}
+	case reflect.Pointer, reflect.Interface:
+		if !v.IsNil() && v.Kind() == reflect.Pointer {
+			c02Alias(v.Elem(), data)
+		}
+	case reflect.Map:
+		for _, k := range v.MapKeys() {
+			e := reflect.New(v.Type().Elem()).Elem()
+			e.Set(v.MapIndex(k))
+			c02Alias(e, data)
+			v.SetMapIndex(k, e)
+		}
+	}
+}
+
+// c02Odd: values of types OUTSIDE the universe of the model — recursive pointer types, maps whose keys are not
+// strings. Encode must return (bytes or an error); what it encodes must decode to the same value.
+func c02Odd(c *Ctx, variant string) {
+	cmd := exec.Command(os.Args[0])
+	cmd.Env = append(os.Environ(), "C02_ODD_VARIANT="+variant, "GOMEMLIMIT=2GiB")
+	var out bytes.Buffer
+	cmd.Stdout = &out
+	done := make(chan error, 1)
+	if err := cmd.Start(); err != nil {
+		panic(err)
+	}
+	go func() { done <- cmd.Wait() }()
+	obs := ""
+	select {
+	case err := <-done:
+		if err != nil {
+			obs = "crash"
+		} else {
+			obs = strings.TrimSpace(out.String())
+		}
+	case <-time.After(120 * time.Second):
+		_ = cmd.Process.Kill()
+		obs = "hang"
+	}
+	c.Emit("c02.odd", []string{variant}, obs)
+}
+
+func c02OddRun(variant string) string {
+	var v any
+	var back func(doc []byte) (string, bool)
+	rt := func(dst any, same func() bool) func([]byte) (string, bool) {
+		return func(doc []byte) (string, bool) {
+			if err := nbt.Unmarshal(doc, dst); err != nil {
+				return "dec=err", false
+			}
+			return "dec=ok", same()
+		}
+	}
+	switch variant {
+	case "rec-zero":
+		v = c02Node{V: 1}
+	case "rec-list":
+		v = c02Node{1, &c02Node{2, &c02Node{3, nil}}}
+	case "rec-nilptr":
+		v = (*c02Node)(nil)
+	case "rec-slice":
+		v = []*c02Node{nil}
+	case "rec-map":
+		v = map[string]*c02Node{"k": nil}
+	case "rec-mutual":
+		v = c02RecA{}
+	case "rec-omitempty":
+		x := c02NodeOE{1, &c02NodeOE{2, &c02NodeOE{3, nil}}}
+		var y c02NodeOE
+		v, back = x, rt(&y, func() bool { return reflect.DeepEqual(x, y) })
+	case "rec-omitempty-nil":
+		var y *c02NodeOE
+		v, back = (*c02NodeOE)(nil), rt(&y, func() bool { return y != nil && *y == c02NodeOE{} })
+	case "map-int":
+		v = map[int]int32{1: 10, 2: 20}
+	case "map-stringer":
+		v = map[c02Key]int32{{1, -2}: 7}
+	case "map-empty-int":
+		v = map[int]int32{}
+	default:
+		return "bad-variant"
+	}
+	var obs string
+	if p, _ := guard(func() {
+		b, err := nbt.Marshal(v)
+		if err != nil {
+			obs = "enc=err"
+			return
+		}
+		obs = "enc=ok:" + hx(b)
+		if back != nil {
+			d, same := back(b)
+			obs += " " + d
+			if d == "dec=ok" {
+				if same {
+					obs += " same=1"
+				} else {
+					obs += " same=0"
+				}
+			}
+		}
+	}); p {
+		obs = "panic"
+	}
+	return obs
+}
+
 func c02Dec(c *Ctx, tdesc, format string, disallow bool, rk string, doc []byte) {
 	t, _ := c02ParseType(tdesc)
 	br := bytes.NewReader(doc)
@@ -804,6 +1066,15 @@ func replayC02(c *Ctx, op string, args []string) bool {
 		c02FieldRead(c, args[0] == "1", args[1], doc)
 	case "c02.fw":
 		c02FieldWrite(c, args[0], args[1], args[2])
+	case "c02.odd":
+		c02Odd(c, args[0])
+	case "c02.hist":
+		n, _ := strconv.Atoi(args[2])
+		var steps [][2]string
+		for i := 0; i < n; i++ {
+			steps = append(steps, [2]string{args[3+2*i], args[4+2*i]})
+		}
+		c02Hist(c, args[0], args[1], steps)
 	default:
 		return false
 	}
